@@ -6,6 +6,10 @@ import time
 
 VERIF = os.path.dirname(os.path.dirname(os.path.abspath(__file__)))
 KNOWN = os.path.join(VERIF, "known_findings.json")
+# the self test runs the checks against scratch trees and must not overwrite the real evidence
+_ALT = os.environ.get("VERIF_EVIDENCE_DIR")
+EVIDENCE_DIR = _ALT if _ALT else os.path.join(VERIF, "evidence")
+REPLAY_DIR = os.path.join(_ALT, "replay") if _ALT else os.path.join(VERIF, "replay")
 
 
 class Report:
@@ -68,8 +72,8 @@ class Report:
             else:
                 new_groups[(rule, site)] = vs
         wall = time.time() - self.t0
-        os.makedirs(os.path.join(VERIF, "evidence"), exist_ok=True)
-        os.makedirs(os.path.join(VERIF, "replay"), exist_ok=True)
+        os.makedirs(EVIDENCE_DIR, exist_ok=True)
+        os.makedirs(REPLAY_DIR, exist_ok=True)
         if self.broken and not new_groups:
             for b in self.broken:
                 print("ANALYSIS-BROKEN property=%s %s" % (self.pid, b))
@@ -88,7 +92,7 @@ class Report:
         n = 0
         for (rule, site), vs in sorted(new_groups.items()):
             n += 1
-            rp = os.path.join(VERIF, "replay", "%s-%d.json" % (self.pid, n))
+            rp = os.path.join(REPLAY_DIR, "%s-%d.json" % (self.pid, n))
             with open(rp, "w") as fh:
                 json.dump({"property": self.pid, "rule": rule, "rule_text": self.rules.get(rule, ""), "site": site, "violations": vs,
                            "how_to_rerun": "cd /verif && ./check %s --tier %s" % (self.pid, self.tier)}, fh, indent=1, default=str)
@@ -145,5 +149,5 @@ class Report:
             "wall_s": round(wall, 2),
             "violations": nviol,
         }
-        with open(os.path.join(VERIF, "evidence", "%s.json" % self.pid), "w") as fh:
+        with open(os.path.join(EVIDENCE_DIR, "%s.json" % self.pid), "w") as fh:
             json.dump(ev, fh, indent=1, default=str)
